@@ -73,7 +73,9 @@ P["C05"] = dict(
           "classified it first), and its dispatch-completeness postcondition says which branch handled the operand; the "
           "signedness of integer leaves is a ghost of pp.fmtInteger; Safe()/Unsafe() wrappers are recognised by their DYNAMIC "
           "type before any method dispatch, wherever they sit (F11); the parentheses and the i of a complex number are operand "
-          "data (F15). Also carries the frame and ownership obligations of package rfmt."),
+          "data (F15); a value whose type is registered is rendered under a context also when it is a reflect.Value operand that "
+          "cannot be interfaced; fmtsort.compare answers 'equal' only for equal keys, so the order of map entries does not depend "
+          "on the runtime's enumeration (A.5c). Also carries the frame and ownership obligations of package rfmt."),
     ref="DESIGN 4 (C05)",
     note=TRUST + "Equality of the safe text with 'what fmt would print' is C04 (not applicable); C05 decides on which side of the "
          "envelopes each payload class lands, for all formats and operands.",
@@ -153,7 +155,9 @@ P["C11"] = dict(
     text=("Panic-freedom sweep: every index, slice, nil-dereference, type-assertion, division, conversion and explicit panic site of "
           "the functions under contract carries an obligation, discharged for all inputs under the function's precondition; "
           "catchPanic's contract contains user-method panics (ghost $panic) and restores printer state; only re-panics while "
-          "printing a panic payload propagate."),
+          "printing a panic payload propagate. Signed + - * and negation carry an overflow obligation at the same sites (the "
+          "model's integers are mathematical: a wrapped width or index would otherwise be invisible); fmtsort's interface-key "
+          "comparison looks inside only two non-nil values."),
     ref="DESIGN 4 (C11)",
     note=TRUST + "fmtFloat (strconv-based) is an assumed contract; newPrinter is nosweep (pool type assertion); integer/unicode/char formatting IS swept, using the digit-count spec function nd whose defining equations and bounds are axioms; "
          "stdlib-derived buffer arithmetic), reflect kind preconditions are assumed where printValue dispatches on Kind.",
@@ -167,7 +171,9 @@ P["C12"] = dict(
           "(empty buffer, no override, no context, no operand/error retained) at every call site, on every path; Take* detaches the "
           "result from the buffer and an array reinterpreted as a string is given up before return (alias.cast); package-level "
           "variables are written only where declared (frame.global); an operand shared by concurrent calls (a StringBuilder printed "
-          "from several goroutines) is only read: the accessors it is printed through write no existing memory (F12). For the 'calls on other goroutines' half the deductive part "
+          "from several goroutines) is only read: the accessors it is printed through, and StringBuilder.SafeFormat itself, write no "
+          "existing memory (F12); the order in which a map's entries are printed does not depend on the runtime's enumeration "
+          "(fmtsort.compare is 0 only on equal keys). For the 'calls on other goroutines' half the deductive part "
           "establishes what a race needs to be absent: a scan of EVERY function of the module (also those without contracts) finds "
           "each write, address-of, slicing, append/copy-into or pointer-receiver call on a package-level variable, and each must be a "
           "variable declared `shared` with a stated justification (sync.Pool; the two registries written only by Register*)."),
@@ -225,7 +231,9 @@ P["C16"] = dict(
           "Print/Printf) is proved to run the shared funnel (doPrint/doPrintf/doPrintln) exactly once on its printer with its own "
           "operand list (and format), on every normal path; F-variants perform exactly one Write and return its (n, err); builder "
           "and nested routes inline the inner output in raw mode / hand the outer buffer over and back; doPrint/doPrintln require "
-          "cleared directive flags (FlagsClear), so a nested Print cannot inherit %+v/%#v from the directive being served."),
+          "cleared directive flags (FlagsClear), so a nested Print cannot inherit %+v/%#v from the directive being served; whether "
+          "the route's printer accepts %w (only HelperForErrorf's does) is part of each printf route's postcondition, down to the "
+          "public wrappers."),
     ref="DESIGN 4 (C16)",
     note=TRUST + "Given the same funnel call, equality of the produced text across routes up to envelope merging is a relational "
          "statement about two runs and is not expressed.",
